@@ -115,6 +115,11 @@ def check(ctx):
     _ix.check_position_map_keys(ctx, [f for f in ctx.prog.all_functions() if f.module.name.startswith(('adsg_core.optimization.graph_processor', 'adsg_core.optimization.hierarchy'))],
                                 required=[f'{GP}.all_des_var_idx_map'])
     ctx.floor('A21i', 2, 'position maps keyed by objects')
+    # memoisation on the paths that report activeness (with/without materialising the instance): the key covers
+    # every parameter the stored answer depends on
+    from ..rules import persist
+    persist.check_memo_functions(ctx, [f for f in ctx.prog.all_functions() if f.module.name.startswith(('adsg_core.optimization.graph_processor', 'adsg_core.optimization.hierarchy'))])
+    ctx.floor('A2p', 3, 'memoising stores in the graph processor / hierarchy analyzers')
     ctx.floor('A5a', 8, 'vector-returning manager methods')
     ctx.floor('A5f', 6, 'conditional-activeness flag sites')
 
